@@ -286,7 +286,37 @@ def r12_8(ctx):
     ctx.floor("R12.8", "aliasing-vec-sites", n, 2)
 
 
+def r12_10(ctx, rule="R12.10"):
+    """Tendril::inline copies its argument into the MAX_INLINE_LEN-byte array inside the tendril and stores the length as the
+    pointer tag: every call is made on a path that established length <= MAX_INLINE_LEN (not MAX_INLINE_TAG, the largest
+    *pointer value* that still means inline), or with the empty array"""
+    cap = int(_const(ctx, "MAX_INLINE_LEN"))
+    cur = nf_common.area_current(ctx, "tendril_core")
+    n = 0
+    for k, v in sorted(cur.items()):
+        if v["kind"] != "paths":
+            continue
+        key, pcs = nfq.cells(ctx, "tendril_core", k, exact=True)
+        for pc in nfq.feasible(pcs):
+            for a, args in pc["actions"]:
+                if not (a in ("call inline", "call Self::inline") or a.endswith("::inline")):
+                    continue
+                x = str(args[0]) if args else ""
+                if x in ("Array", "[]", "Repeat(0,0)"):
+                    continue
+                n += 1
+                bounds = [int(l) for l, op, r, val, g in comparisons(pc["guards"]) if op == "<" and val is False and re.fullmatch(r"\d+", l)]
+                ok = bool(bounds) and min(bounds) <= cap
+                ctx.ob(rule, "inline-only-up-to-MAX_INLINE_LEN/%s" % k.split("::")[-1], ok,
+                       "inline(..) under length <= %d" % cap if ok else
+                       "%s builds an inline tendril from %s on a path that only established length <= %s; the inline array holds %d bytes: the copy runs past it and the tag is not a valid inline length" % (
+                           k.split("::")[-1], x[:60], min(bounds) if bounds else "nothing", cap), "tendril " + k)
+    ctx.floor(rule, "inline-calls", n, 5)
+
+
 def run(ctx):
+    ctx.rule("R12.10", "Tendril::inline is called only with at most MAX_INLINE_LEN bytes")
+    ctx.guard("R12.10", "inline-bound", lambda: r12_10(ctx))
     ctx.rule("R12.9", "the safe wrappers reach the unchecked primitives only after a bounds test that cannot overflow (shared with R11.2): no subtendril / pop reads outside the buffer")
     def bounds():
         from . import C11 as c11
